@@ -28,11 +28,27 @@ pub fn check_roundtrip(text: &[char], labels: &[u8], char_tags: &[Vec<Option<Str
                 s.tags_mut()[i * n_tags + j] = tg.clone().map(|x| x.into());
             }
         }
-        partial_of(&s)
+        let owned = partial_of(&s);
+        // the same sentence with BORROWED tag strings (what fill_tags and `"..".into()` store)
+        let mut s2 = Sentence::from_raw(t.clone()).expect("from_raw");
+        for (b, &l) in s2.boundaries_mut().iter_mut().zip(labels) {
+            *b = label(l);
+        }
+        s2.reset_tags(n_tags);
+        for (i, ts) in char_tags.iter().enumerate() {
+            for (j, tg) in ts.iter().enumerate() {
+                s2.tags_mut()[i * n_tags + j] = tg.as_deref().map(std::borrow::Cow::Borrowed);
+            }
+        }
+        let borrowed = partial_of(&s2);
+        if borrowed != owned {
+            return Err(format!("borrowed tag strings are written as {borrowed:?}, owned ones as {owned:?}"));
+        }
+        owned
     });
     let w = match written {
         Err(p) => return Some(("setup-panic".into(), p)),
-        Ok(Err(p)) => return Some(("write-panic".into(), format!("write_partial_annotation_text panicked: {p}"))),
+        Ok(Err(p)) => return Some(("write-panic".into(), format!("write_partial_annotation_text failed: {p}"))),
         Ok(Ok(w)) => w,
     };
     // route 0: the constructor; route 1: update_partial_annotation on a longer, more heavily tagged
